@@ -6,6 +6,7 @@ systematically from the real operator registry:
   K  operators with `const` parameters: plain literal, and a *computed* constant (`lit(a) + b`)
   W  window / aggregate operators with empty `arrange=[]` / `partition_by=[]`
   S  slices without an order, alone and below a forced subquery
+  N  a function applied to the result of another (untyped) function: unary Float functions under round / aggregates / windows / casts
   G  every verb (group_by + summarize / mutate, arrange + slice below a subquery, window keys, null filters, joins,
      distinct unions, case keys, min / max) over a column of every dtype
 
@@ -315,8 +316,46 @@ def hidden_cases():
     return [("H.select_hidden_used", h1), ("H.overwritten_used", h2), ("H.hidden_group_keys", h3), ("H.join_hidden_both", h4)]
 
 
+def nested_cases():
+    """N: a function applied to the *result of another function* (SQLAlchemy leaves most `func.*` results untyped, so a dialect
+    rewrite that casts back to `x.type` meets NullType): every unary Float function of the registry under round / sum / mean / min /
+    max / cum_sum / shift / abs / floor / casts / arithmetic, in mutate and summarize"""
+    from pydiverse.transform._internal.ops import ops
+    from pydiverse.transform._internal.ops.op import Ftype, Operator
+    from pydiverse.transform._internal.tree import types
+    from pydiverse.transform._internal.tree.col_expr import ColFn
+
+    pdt = _pdt()
+    inner = {}
+    for attr in sorted(dir(ops)):
+        op = getattr(ops, attr)
+        if isinstance(op, Operator) and op.ftype == Ftype.ELEMENT_WISE and any(
+                len(sig.types) == 1 and not sig.is_vararg and type(types.without_const(sig.types[0])) is pdt.Float for sig in op.signatures):
+            inner[attr] = (lambda t, op=op: ColFn(op, t.f))
+    inner["horizontal_max"] = lambda t: pdt.max(t.f, t.g)
+    inner["coalesce"] = lambda t: pdt.coalesce(t.f, t.g)
+    inner["case"] = lambda t: pdt.when(t.b).then(t.f).otherwise(t.g)
+    inner["truediv_int"] = lambda t: t.i / t.j
+    outer = {
+        "round2": lambda e, t: e.round(2), "round0": lambda e, t: e.round(), "round_neg": lambda e, t: e.round(-1), "abs": lambda e, t: e.abs(),
+        "floor": lambda e, t: e.floor(), "ceil": lambda e, t: e.ceil(), "neg": lambda e, t: -e, "add": lambda e, t: e + 1, "pow": lambda e, t: e ** 2,
+        "cast_str": lambda e, t: e.cast(pdt.String()), "cast_int": lambda e, t: e.cast(pdt.Int64()), "is_null": lambda e, t: e.is_null(),
+        "fill_null": lambda e, t: e.fill_null(0.0), "cmp": lambda e, t: e > 0.5, "clip": lambda e, t: e.clip(0.0, 1.0),
+        "shift": lambda e, t: e.shift(1, arrange=t.i), "cum_sum": lambda e, t: e.cum_sum(arrange=t.i), "win_sum": lambda e, t: e.sum(partition_by=t.j),
+        "win_mean": lambda e, t: e.mean(partition_by=t.j), "win_max": lambda e, t: e.max(partition_by=t.j),
+    }
+    aggs = {"sum": lambda e: e.sum(), "mean": lambda e: e.mean(), "min": lambda e: e.min(), "max": lambda e: e.max(), "count": lambda e: e.count()}
+    out = []
+    for gi, g in inner.items():
+        for fo, f in outer.items():
+            out.append((f"N.{fo}.{gi}", lambda t, f=f, g=g: t >> pdt.mutate(z=f(g(t), t))))
+        for fa, f in aggs.items():
+            out.append((f"N.agg_{fa}.{gi}", lambda t, f=f, g=g: t >> pdt.group_by(t.j) >> pdt.summarize(z=f(g(t)))))
+    return out
+
+
 def all_cases():
-    return literal_cases() + const_param_cases() + window_cases() + slice_cases() + verb_dtype_cases() + hidden_cases()
+    return literal_cases() + const_param_cases() + window_cases() + slice_cases() + verb_dtype_cases() + hidden_cases() + nested_cases()
 
 
 def run_grid() -> list[dict]:
